@@ -95,7 +95,7 @@ P = {
                   "set iff it accepts every rule and otherwise leaves the source's rules untouched; that the executed trace is the "
                   "effective pipeline stage by stage in each of the four probe modes (nothing fails; authenticators, authorization "
                   "stage, finalization stage fail); and that an implementation showing what the model shows satisfies the "
-                  "property predicate. The model is tied to the code by running both on ~4000 (quick) / ~100000 (thorough) generated "
+                  "property predicate. The model is tied to the code by running both on ~4000 (quick: 3988 on seed 1) / ~107000 (thorough: 106946 measured, 88000 generated inputs, a history counting once per call) generated "
                   "cases per run in five streams and comparing executed traces, load results and served rules; the property "
                   "predicate compares the implementation's observation with the observation of the SPECIFICATION's effective rule, "
                   "projected by the model's execution / lookup functions run, lookup, observe_ids (run is characterised by the "
